@@ -124,7 +124,19 @@ func runC08(c *sim.Ctx) *sim.Violation {
 		var E error = io.EOF
 		kindName := "EOF"
 		if kind == 1 {
-			E = errors.New(fmt.Sprintf("link failure #%d", c.Seq()))
+			// a fresh error value per injection; one time in three it is an error
+			// that itself wraps io.EOF or io.ErrUnexpectedEOF (as net.OpError or a TLS
+			// layer does): it is still the transport's failure, and errors.Is(err, E)
+			// must hold for THAT value
+			switch t.Pick(4, 1, 1) {
+			case 0:
+				E = errors.New(fmt.Sprintf("link failure #%d", c.Seq()))
+			case 1:
+				E = &wrappedErr{msg: fmt.Sprintf("link failure #%d: connection lost", c.Seq()), inner: io.EOF}
+				c.Count("probe.transport-error-that-wraps-io.EOF")
+			default:
+				E = &wrappedErr{msg: fmt.Sprintf("link failure #%d: short read", c.Seq()), inner: io.ErrUnexpectedEOF}
+			}
 			kindName = "E"
 		}
 		stream := append(append([]byte{}, prefixFrame...), frame...)
@@ -181,6 +193,15 @@ func runC08(c *sim.Ctx) *sim.Violation {
 	}
 	return nil
 }
+
+// wrappedErr is a transport error that wraps another error (like net.OpError).
+type wrappedErr struct {
+	msg   string
+	inner error
+}
+
+func (e *wrappedErr) Error() string { return e.msg + ": " + e.inner.Error() }
+func (e *wrappedErr) Unwrap() error { return e.inner }
 
 func tail(l []int, n int) []int {
 	if len(l) > n {
